@@ -337,11 +337,19 @@ func headerWithSeq(h model.Header, seq int) tq.EncoderDecoder {
 }
 
 // argRuleBroken states the argument rules of the authorization bodies independently of the library:
-// an argument is 2..255 octets of US-ASCII (accounting arguments may also be shorter).
+// an argument is 2..255 octets of US-ASCII (accounting arguments may also be shorter); and the one rule of
+// the authentication START that depends on another field: with authen_type ASCII the data field is
+// US-ASCII (the library's own comment at AuthenData.Validate; a change that disconnects that rule from
+// AuthenStart.Validate silences both the decoder and the value's Validate, round 19).
 func argRuleBroken(m interface{}) (bool, string) {
 	var args []model.B
 	min := 2
 	switch v := m.(type) {
+	case model.AuthenStart:
+		if v.AType == 1 && !isASCII(v.Data) {
+			return true, "authen_type is ASCII and the data field is not US-ASCII"
+		}
+		return false, ""
 	case model.AuthorRequest:
 		args = v.Args
 	case model.AuthorReply:
